@@ -176,6 +176,10 @@ def encodeText (dmax : Nat) (items : List Item) : String :=
 def itemsOf (q : Qty) (w d : Nat) (rs : List Rng) : List Item :=
   (cellRangesOf (cellsOf q w d rs)).map fun c => ⟨c.1, c.2.1, c.2.2⟩
 
+/-- The elements the JSON writer is fed with (`RangeMOC → cells`): single cells only. -/
+def cellItemsOf (q : Qty) (w d : Nat) (rs : List Rng) : List Item :=
+  (cellsOf q w d rs).map fun c => ⟨c.1, c.2, c.2 + 1⟩
+
 /-! ### FITS range payload -/
 
 /-- Big-endian bytes of `x` on `n` bytes. -/
